@@ -44,6 +44,18 @@ static void* child_prog(void* param) {
   return param;
 }
 
+/* op 25: a child that keeps yielding, a joiner blocked in fiber_join(child), and a third party that detaches the child */
+static void* slow_child_prog(void* param) {
+  for (long i = 0; i < 3 + (long)(intptr_t)param; i++) fiber_yield();
+  return (void*)(intptr_t)5;
+}
+static void* joiner_prog(void* param) {
+  void* res = NULL;
+  int rc = fiber_join((fiber_t*)param, &res);
+  /* either the join won (result 5) or the detach did (FIBER_ERROR): both are legal, anything else is not */
+  return (void*)(intptr_t)((rc == FIBER_SUCCESS && res == (void*)(intptr_t)5) || rc == FIBER_ERROR ? 1 : 2);
+}
+
 static void* fiber_prog(void* param) {
   int f = (int)(intptr_t)param;
   int held[2] = {0, 0};
@@ -119,6 +131,15 @@ static void* fiber_prog(void* param) {
         if (atomic_load(&rw_writers) != 1 || atomic_load(&rw_readers)) r = 78;
         atomic_fetch_sub(&rw_writers, 1);
         fiber_rwlock_wrunlock(&rwl);
+        break;
+      }
+      case 25: {
+        fiber_t* c = fiber_create(20000, &slow_child_prog, (void*)(intptr_t)a);
+        fiber_t* j = fiber_create(20000, &joiner_prog, c);
+        void* jr = NULL;
+        for (long y = 0; y < 1 + a; y++) fiber_yield();
+        fiber_detach(c);
+        if (fiber_join(j, &jr) != FIBER_SUCCESS || jr != (void*)(intptr_t)1) r = 79;
         break;
       }
       case 24: if (!held[0] && !held[1]) fiber_barrier_wait(&bar2); break;   /* ping-pong through a two-party barrier */
